@@ -215,8 +215,8 @@ Definition run (v : wv) : wv :=
           | (ts, tl, cu), (ps, pl, pu) =>
               wok [enc_evs ts; enc_passes tl; wbool cu;
                    enc_evs ps; enc_passes pl; wbool pu;
-                   WL [wbool (transl_ok p); wbool (vars_persist p); wbool (well_placed p);
-                       wbool (one_main_last p); wbool (vars_ok p); wbool (well_placed_unique p)];
+                   WL [wbool (transl_ok p); wbool (breaks_ok p); wbool (well_placed p);
+                       wbool (one_main_last p); wbool (well_placed_unique p)];
                    WL (map WI (poll_pins (transl p)));
                    enc_names (tick_list (transl p))]
           end
